@@ -45,10 +45,10 @@ ASSUMPTIONS = ['a workbook written by openpyxl stands for "readable workbook"',
                'about the number of positional arguments; every other exception of a member is data-dependent and not judged here',
                f'bounded progress: {STEP_BUDGET} PY_START events per translation + {PER_CELL} per cell the translation registers']
 FLOORS = {'quick': {'evaluations': 6000, 'nontrivial': 3000, 'counters': {'translations_under_budget': 4000, 'members_called': 3000, 'file_vs_object': 500}},
-          'thorough': {'evaluations': 150000, 'nontrivial': 80000, 'counters': {'translations_under_budget': 100000, 'members_called': 60000, 'file_vs_object': 10000}}}
+          'thorough': {'evaluations': 150000, 'nontrivial': 60000, 'counters': {'translations_under_budget': 100000, 'members_called': 60000, 'file_vs_object': 10000}}}
 
 LEX = (list(c05.ARITY) + ['FOO', 'sum', 'If', 'TEXT', 'NOW', 'PI'])
-ATOMS = ['1', '2.5', '1e3', '1E3', '.5', '1.', '0', '007', '"x"', '""', '"a""b"', '"it\'s"', '"a\\"', '"{0}"', '"%s"', '"*a?"', '"~*"', 'TRUE', 'FALSE', 'TRUE()',
+ATOMS = ['1', '2.5', '1e3', '1E3', '1e30007', '7.5e310', '.5', '1.', '0', '007', '"x"', '""', '"a""b"', '"it\'s"', '"a\\"', '"{0}"', '"%s"', '"*a?"', '"~*"', 'TRUE', 'FALSE', 'TRUE()',
          'A1', '$A$1', 'A$1', 'a1', 'AA10', 'XFD1048576', 'XFE1', 'A0', 'A1:B2', 'A:A', 'A:C', '1:1', 'A1:A', 'B2:A1', 'S2!A1', "'S2'!A1", "'my sheet'!B2",
          'Nope!A1', "'No pe'!A1:B2", 'S2!A:A', '!A1', "''!A1", 'S2!', "'S2'", '#REF!', '#N/A', 'A1.B2', 'R1C1', '_x', 'x']
 PUNCT = ['(', ')', ',', ';', '+', '-', '*', '/', '&', '=', '<>', '<', '>', '<=', '>=', '%', ':', '!', '$', "'", '"', ' ', '\n', '\t', '^', '~', '{', '}', '[', ']', '@', '#', '\\', '.']
@@ -62,7 +62,7 @@ DEGENERATE = ['=', '==', '=()', '=(', '=)', '=-', '=+', '=%', '=""', '="', "='",
               '=SEARCH("a")', '=SUMIF(A1:A3)', '=SUMIF(A1:A3,)', '=SUMIFS(A1:A3,A1:A3)', '=COUNTIFS(A1:A3)', '=AVERAGEIFS(A1:A3)', '=NETWORKDAYS(A1)',
               '=DATEDIF(A1,A2)', '=ROUND(1)', '=IFERROR(1)', '=IFERROR(,)', '=SUM(1;2,3)', '=SUM(1,,2)', '=IF(1>0;2,3)', '=TRUEA1', '=FALSE1', '=TRUE1',
               "='S2'!A1:'S2'!B2", '=S2!A1:S2!B2', '=S2!A1:B2', "='S2'A1", "=S2'!A1", '=A1!B2', '=1!A1', '=-A1:A3', '=A1:A3%', '=A1:A3+1', '=(A1:A3)', '=SUM((A1:A3))',
-              '=SUM(A1:A3)(1)', '=1e400', '=1e-400', '=99999999999999999999', '=0.' + '1' * 400, '="' + 'x' * 5000 + '"', '=A' * 50, '=' + '-' * 60 + '1',
+              '=SUM(A1:A3)(1)', '=1e400', '=1e-400', '=1e30007', '=1.5e400', '=2e308', '=1e309', '=9.9e999', '=99999999999999999999', '=0.' + '1' * 400, '="' + 'x' * 5000 + '"', '=A' * 50, '=' + '-' * 60 + '1',
               '=' + '(' * 80, '=' + ')' * 80, '=' + '"' * 7, '=SUM(' * 30, '=' + 'IF(' * 20 + '1' + ',2,3)' * 19]
 
 
